@@ -136,6 +136,12 @@ def writers(rep, c, sfx):
         for n in walk(st["body"]):
             if kind(n) == "Call" and isinstance(callee(n), str) and callee(n).startswith("pest::error::Error::new_from_pos"):
                 posarg = peel(n["args"][1])
+                _lets, _modes = hirq.lets(st["body"]), hirq.binding_modes(st)
+                d = 0
+                while d < 6 and kind(posarg) == "Path" and posarg.get("res") == "local" and posarg["id"] in _lets \
+                        and not _modes.get(posarg["id"]):
+                    posarg = peel(_lets[posarg["id"]][0])   # an immutable `let pos = ..` (or an inlined helper's parameter)
+                    d += 1
                 ok = kind(posarg) == "Call" and len(posarg["args"]) == 2 and kind(peel(posarg["args"][1])) == "Field" \
                     and peel(posarg["args"][1])["name"] == "attempt_pos"
                 r.instance("error-position:" + callee(n).split("::")[-1], where(n))
